@@ -134,8 +134,11 @@ def parseEv (s : Sys) (tok : String) : Option Ev :=
   | ["c"] => some .commit
   | ["r"] => some .rollback
   | ["x"] => some .deleteAll
+  | ["z"] => some .removeEmpty
   | ["mu"] => some (.startMerge (s.st.uncommitted.map (·.segId)))
   | ["mc"] => some (.startMerge (s.st.committed.map (·.segId)))
+  | ["xu"] => some (.startMergeExplicit (s.st.uncommitted.map (·.segId)))
+  | ["xc"] => some (.startMergeExplicit (s.st.committed.map (·.segId)))
   | ["e"] => some .endMerge
   | _ => none
 
@@ -150,10 +153,14 @@ def parseEvM (s : SysM) (tok : String) : Option EvM :=
   | ["c"] => some .commit
   | ["r"] => some .rollback
   | ["x"] => some .deleteAll
+  | ["z"] => some .removeEmpty
   | ["mu"] => some (.startMerge (s.st.uncommitted.map (·.segId)))
   | ["mc"] => some (.startMerge (s.st.committed.map (·.segId)))
   | ["mu1"] => some (.startMerge ((s.st.uncommitted.map (·.segId)).drop 1))
   | ["mc1"] => some (.startMerge ((s.st.committed.map (·.segId)).drop 1))
+  | ["xu"] => some (.startMergeExplicit (s.st.uncommitted.map (·.segId)))
+  | ["xc"] => some (.startMergeExplicit (s.st.committed.map (·.segId)))
+  | ["xc1"] => some (.startMergeExplicit ((s.st.committed.map (·.segId)).drop 1))
   | ["e", i] => i.toNat?.map EvM.endMerge
   | _ => none
 
@@ -173,7 +180,8 @@ def handle : List String → String
   | "model" :: ss =>
     match ss.mapM parseSeg with
     | some segs =>
-      showLogical (dump (mergeModel segs)) ++ "/" ++ showNatList ((mergedTerms segs).map (·.2.1))
+      showLogical (dump (mergeModel (mergeReaders segs))) ++ "/" ++
+        showNatList ((mergedTerms (mergeReaders segs)).map (·.2.1))
     | none => "bad-op"
   | "table" :: ss =>
     match ss.mapM parseSeg with
@@ -193,6 +201,25 @@ def handle : List String → String
         showNatList (sortNat ((pendDocs s.st).map (·.uid))) ++ "/abs=" ++
         showNatList (sortNat (a.pub.map (·.uid))) ++ "/abspend=" ++ showNatList (sortNat (a.pend.map (·.uid)))
     | none => "bad-op"
+  | "shuffled" :: tbl :: ss =>
+    -- the merge through an arbitrary new→old table `s:d,s:d,…` (sorted-index merges)
+    let parseAddr (t : String) : Option (Nat × Nat) :=
+      match t.splitOn ":" with
+      | [a, b] => match a.toNat?, b.toNat? with
+        | some a, some b => some (a, b)
+        | _, _ => none
+      | _ => none
+    match (if tbl == "-" then some [] else (tbl.splitOn ",").mapM parseAddr), ss.mapM parseSeg with
+    | some tbl, some segs =>
+      -- the doc store goes through per-source iterators (`storeIter`); it must deliver the
+      -- documents the table asks for
+      match storeIter (storeIters segs) tbl with
+      | none => "store-iterator-ran-dry"
+      | some ds =>
+        if ds != shuffledDocs segs tbl then "store-iterator-differs" else
+        showLogical { docs := shuffledDocs segs tbl,
+                      terms := dropEmpty ((allKeys segs).map fun k => (k, shuffledPostings segs tbl k)) }
+    | _, _ => "bad-op"
   | "tracem" :: toks =>
     match traceRunM toks with
     | some (s, a) =>
